@@ -118,18 +118,29 @@ G1(c, p) ==
 Representable(c, p) == SSRBLegal(c, p) /\ G1(c, p)
 
 (* ------------------------------ the rebinning --------------------------- *)
-\* TOF: k in HALF unmashed TOF-bin widths: centre of bin k of data mashed by M is 2*M*k, its
-\* interval [2*M*k - M, 2*M*k + M).  An input bin goes to the output bin whose interval contains
-\* its centre.  For odd tofComb the centre is never on an edge.  For even tofComb a centre can lie
-\* exactly on an edge; EvenTofEdge names the convention of the code (lower edge inclusive), about
-\* which the documentation is silent.
-InTofInterval(o, ko, kq) == kq >= 2 * o.tofMash * ko - o.tofMash /\ kq < 2 * o.tofMash * ko + o.tofMash
-OnTofEdge(o, kq) == \E ko \in TofBins(o) : kq = 2 * o.tofMash * ko - o.tofMash \/ kq = 2 * o.tofMash * ko + o.tofMash
+\* TOF.  "The bin that the output geometry assigns": a TOF bin of the input is the set of unmashed timing
+\* positions that the input geometry maps to it; the rebinning must send it to the TOF bin to which the
+\* output geometry maps all of them.  That is well defined only when the coarse TOF bins are unions of
+\* fine ones (TofNests): always for odd tofComb and for unmashed input (theorem InvNest of MC_Rebin),
+\* not for even tofComb on mashed input, where a fine bin straddles two coarse bins.
+UnmashedOf(c, k) == { t \in (-(c.maxT))..c.maxT : TofBin(c, t) = k }
+OutTofsOf(c, o, k) == { TofBin(o, t) : t \in UnmashedOf(c, k) }
+TofNests(c, o) == ~IsTof(c) \/ \A k \in TofBins(c) : Cardinality(OutTofsOf(c, o, k)) = 1
 TofMap(c, o, k) ==
   IF ~IsTof(c) THEN 0
-  ELSE LET kq == 2 * c.tofMash * k
-           K == { ko \in TofBins(o) : InTofInterval(o, ko, kq) } IN
-       IF K = {} THEN 9999 ELSE CHOOSE ko \in K : TRUE
+  ELSE LET K == OutTofsOf(c, o, k) IN
+       IF Cardinality(K) # 1 THEN 9998                                  \* straddles
+       ELSE LET ko == CHOOSE x \in K : TRUE IN IF ko \in TofBins(o) THEN ko ELSE 9999
+\* The implementation-shaped rule ("check if in_timing_pos_num is in the range for the out bin"): k in
+\* HALF unmashed TOF-bin widths: the centre of bin k of data mashed by M is 2*M*k, its interval
+\* [2*M*k - M, 2*M*k + M]; an input bin goes to the output bin whose interval contains its centre.
+\* For odd tofComb no centre lies on an edge and the rule is TofMap (theorem InvTofK); for even tofComb a
+\* centre can lie exactly on an edge and the rule leaves open which side it goes to (TofCands).
+InTofIntervalClosed(o, ko, kq) == kq >= 2 * o.tofMash * ko - o.tofMash /\ kq <= 2 * o.tofMash * ko + o.tofMash
+OnTofEdge(o, kq) == \E ko \in TofBins(o) : kq = 2 * o.tofMash * ko - o.tofMash \/ kq = 2 * o.tofMash * ko + o.tofMash
+TofCands(c, o, k) == IF ~IsTof(c) THEN {0} ELSE { ko \in TofBins(o) : InTofIntervalClosed(o, ko, 2 * c.tofMash * k) }
+\* the centre is strictly inside the interval of a bin of the output
+TofCertain(c, o, k) == ~IsTof(c) \/ (TofCands(c, o, k) # {} /\ ~OnTofEdge(o, 2 * c.tofMash * k))
 
 \* output segment whose ring-difference range contains the input segment's
 OutSegOf(c, o, s) ==
@@ -140,13 +151,17 @@ OutAxOf(c, o, s, ax, so) ==
   LET A == { a \in 0..(NumAx(o, so) - 1) : MQ(o, so, a) = MQ(c, s, ax) } IN
   IF A = {} THEN 9999 ELSE CHOOSE a \in A : TRUE
 
-SSRBMap(c, o, p, b) ==
+\* the part of the rebinning that does not involve TOF (tof component 0)
+SSRBMapS(c, o, p, b) ==
   LET so == OutSegOf(c, o, b.seg) IN
   IF so = 9999 THEN NoBin
-  ELSE LET ao == OutAxOf(c, o, b.seg, b.ax, so)
-           ko == TofMap(c, o, b.tof) IN
-       IF ao = 9999 \/ ko = 9999 \/ b.tang < o.minTang \/ b.tang > o.maxTang THEN NoBin
-       ELSE Bin(so, ao, b.view \div p.viewComb, b.tang, ko)
+  ELSE LET ao == OutAxOf(c, o, b.seg, b.ax, so) IN
+       IF ao = 9999 \/ b.tang < o.minTang \/ b.tang > o.maxTang THEN NoBin
+       ELSE Bin(so, ao, b.view \div p.viewComb, b.tang, 0)
+SSRBMap(c, o, p, b) ==
+  LET bs == SSRBMapS(c, o, p, b)
+      ko == TofMap(c, o, b.tof) IN
+  IF bs = NoBin \/ ko >= 9998 THEN NoBin ELSE [bs EXCEPT !.tof = ko]
 
 \* number of input sinograms (ignoring TOF) that are added into an output sinogram, and the
 \* divisor of the normalised variant ("normalise the output sinograms corresponding to how many input
@@ -187,7 +202,6 @@ CommuteAt(c, o, p, bi, bo) ==
 SubsetAt(c, o, p, bi, bo) == (p.trim >= 0 /\ Covered(o, bo)) => Covered(c, bi)
 \* "total counts are conserved when no range is trimmed"
 ConserveAt(c, o, p, bi, bo) == (NothingTrimmed(c, p) /\ Covered(c, bi)) => Covered(o, bo)
-\* for even tofComb the coarse TOF bins are not unions of fine TOF bins: a fine bin whose centre lies on
-\* a coarse edge straddles two coarse bins, and the relation is only claimed away from those
-TieFree(c, o, bi) == bi = NoBin \/ ~IsTof(c) \/ ~OnTofEdge(o, 2 * c.tofMash * bi.tof)
+\* the interval rule is the rebinning wherever it is unambiguous
+TofKAgrees(c, o) == \A k \in TofBins(c) : TofCertain(c, o, k) => (TofNests(c, o) => TofCands(c, o, k) = {TofMap(c, o, k)})
 =============================================================================
